@@ -32,6 +32,10 @@ META = {
 def case(draw):
     zero = draw(st.integers(0, 5)) == 0
     steep = (0.004, 0.012) if zero else (0.035, 0.09)
+    marginal = (not zero) and draw(st.integers(0, 7)) == 0
+    if marginal:
+        # seas only just above the breaking threshold: integrated dissipation non-zero but orders of magnitude smaller
+        steep = (0.012, 0.035)
     c = draw(W.sea_case(max_points=4, kinds=("jonswap", "jonswap", "pm"), min_nf=14, max_nf=26, steep=steep,
                         nds=(16, 24, 36)))
     if not zero and draw(st.integers(0, 3)) == 0:
@@ -42,6 +46,17 @@ def case(draw):
             p["fp"] = draw(fl(0.52, 0.8))
             p["hs"] = float(draw(fl(0.04, 0.08)) * W.G / (2 * math.pi * p["fp"] ** 2))
         c["young_sea"] = True
+    elif not zero and draw(st.integers(0, 4)) == 0:
+        # pond / wave-tank scale wind seas (centimetres high, peaked near 1 Hz): steep, hence dissipating, but with an
+        # integrated dissipation of 1e-9..1e-8 m^2/s in absolute terms
+        c["fmax"] = draw(fl(3.0, 4.0))
+        c["nf"] = max(c["nf"], 24)
+        for p in c["points"]:
+            p["fp"] = draw(fl(0.9, 1.4))
+            p["hs"] = float(draw(fl(0.04, 0.08)) * W.G / (2 * math.pi * p["fp"] ** 2))
+        c["pond_scale_sea"] = True
+    if marginal:
+        c["marginal_steepness"] = True
     c.update({"dissipation": draw(st.sampled_from(["st4", "st4", "st6"])),
               "guess": draw(st.sampled_from(["equilibrium", "equilibrium", "arbitrary"])),
               "guess_u10": [draw(fl(1.0, 30.0)) for _ in c["points"]],
@@ -88,6 +103,13 @@ def run(c):
         classes.append("balance_used_before_on_another_grid_of_the_same_shape")
     if c.get("young_sea"):
         classes.append("young_sea_peaked_above_0.5Hz")
+    if c.get("pond_scale_sea"):
+        classes.append("pond_scale_sea_peaked_near_1Hz")
+    if c.get("marginal_steepness"):
+        classes.append("marginal_steepness_0.012_0.035")
+    for b in Bd:
+        if 0 < -b < 1e-8:
+            classes.append("integrated_dissipation_nonzero_below_1e-8")
     if dspec is not None:
         classes.append("with_rate_of_change" + ("_partly_outside_the_forced_bins" if c.get("dedt_opposing") else ""))
 
